@@ -9,7 +9,7 @@ from ..report import Report
 from .common import call, call_func, driver_interp, new_obj
 
 KEYS = ["a", "A", "b"]
-VALUES = ["v1", ""]     # a falsy value too: truthiness of a value must not matter
+VALUES = ["v1", "", 2021]     # a falsy value too: truthiness of a value must not matter; a value that is no text stays what it is
 
 
 def ref_apply(state, op):
@@ -323,6 +323,12 @@ def run(P: Program, rep: Report):
             rep.fail("C19.R5", f"class:{c.name}:identity-eq", c.loc, f"{c.name} has no __eq__ in its MRO: equality falls back to identity")
         else:
             rep.ok("C19.R5", f"class:{c.name}", c.loc, nontrivial=False)
+
+    rep.rule("C19.R8", "no container is shared between entries behind their back: no function of the model, the library or the splitter has a "
+                       "mutable parameter default that it stores, returns, mutates or hands on (entries built without a field list would share one)")
+    from . import common as _common8
+    _common8.no_shared_mutable_defaults(P, rep, "C19.R8", ["model", "library", "splitter", "middlewares.middleware"])
+    rep.ok("C19.R8", "mutable-defaults:none-escape", "bibtexparser/", nontrivial=False)
 
     rep.rule("C19.R9", "no unsafe memoisation in the modules this property rests on: a function decorated with lru_cache / cache / "
                       "cached_property neither takes nor returns a mutable object (else later calls see stale or shared results)")
